@@ -1,10 +1,13 @@
 package masks
 
 import (
+	"strings"
+
 	"github.com/mennanov/fmutils"
 	"google.golang.org/grpc/codes"
 	"google.golang.org/grpc/status"
 	"google.golang.org/protobuf/proto"
+	"google.golang.org/protobuf/reflect/protoreflect"
 	"google.golang.org/protobuf/types/known/fieldmaskpb"
 )
 
@@ -67,10 +70,39 @@ func (r *ResponseFilter) FilterClone(msg proto.Message) proto.Message {
 	return clone
 }
 
-// usablePaths returns paths without those lying below another path of the mask: the parent selects the whole field,
-// while fmutils lets a child path narrow its parent.
-func usablePaths(_ proto.Message, paths []string) []string {
-	return normalPaths(paths)
+// usablePaths returns the paths fmutils can apply to msg: paths that do not resolve to a field of msg, or that
+// continue through a scalar, map or repeated scalar field select nothing (Validate reports them) instead of making the
+// filter panic; a path lying below another path of the mask is dropped, the parent selects the whole field.
+func usablePaths(msg proto.Message, paths []string) []string {
+	md := msg.ProtoReflect().Descriptor()
+	usable := make([]string, 0, len(paths))
+	for _, p := range paths {
+		if pathApplies(md, p) {
+			usable = append(usable, p)
+		}
+	}
+	return normalPaths(usable)
+}
+
+func pathApplies(md protoreflect.MessageDescriptor, path string) bool {
+	segments := strings.Split(path, ".")
+	for i, segment := range segments {
+		if md == nil {
+			return false // continues through a scalar
+		}
+		fd := md.Fields().ByName(protoreflect.Name(segment))
+		if fd == nil {
+			return false
+		}
+		if i == len(segments)-1 {
+			return true
+		}
+		if fd.IsMap() {
+			return false
+		}
+		md = fd.Message() // nil for scalars, including repeated ones
+	}
+	return false
 }
 
 type ResponseFilterOption func(*ResponseFilter)
